@@ -695,17 +695,11 @@ def cxOnePoint(ind1, ind2):
     # List all available primitive types in each individual
     types1 = defaultdict(list)
     types2 = defaultdict(list)
-    if ind1.root.ret == __type__:
-        # Not STGP optimization
-        types1[__type__] = list(range(1, len(ind1)))
-        types2[__type__] = list(range(1, len(ind2)))
-        common_types = [__type__]
-    else:
-        for idx, node in enumerate(ind1[1:], 1):
-            types1[node.ret].append(idx)
-        for idx, node in enumerate(ind2[1:], 1):
-            types2[node.ret].append(idx)
-        common_types = set(types1.keys()).intersection(set(types2.keys()))
+    for idx, node in enumerate(ind1[1:], 1):
+        types1[node.ret].append(idx)
+    for idx, node in enumerate(ind2[1:], 1):
+        types2[node.ret].append(idx)
+    common_types = set(types1.keys()).intersection(set(types2.keys()))
 
     if len(common_types) > 0:
         type_ = random.choice(list(common_types))
